@@ -7,16 +7,18 @@ class Transc (K : Type) where
   exp : K → K
   log : K → K
   cos : K → K
+  sin : K → K
   sqrt : K → K
   /-- `torch.sinc`: sin(πx)/(πx), 1 at 0 -/
   sinc : K → K
   pi : K
-export Transc (exp log cos sqrt sinc)
+export Transc (exp log cos sin sqrt sinc)
 
 instance : Transc Float where
   exp := Float.exp
   log := Float.log
   cos := Float.cos
+  sin := Float.sin
   sqrt := Float.sqrt
   sinc := fun x => if x == 0.0 then 1.0 else Float.sin (3.141592653589793 * x) / (3.141592653589793 * x)
   pi := 3.141592653589793
@@ -59,6 +61,92 @@ def monoExp_dtd (m0 td t : K) : K := m0 * exp (-(t / td)) * (t / (td * td))
 def molli_da (_a c t1 ti : K) : K := 1 - c * exp (ti / t1 * (1 - c))
 def molli_dc (a c t1 ti : K) : K := -(a * (exp (ti / t1 * (1 - c)) - c * exp (ti / t1 * (1 - c)) * (ti / t1)))
 def molli_dt1 (a c t1 ti : K) : K := a * c * exp (ti / t1 * (1 - c)) * (ti * (1 - c) / (t1 * t1))
+
+/-- derivative of `sinc` away from `0`: `d/dx sinc x = (cos(πx) − sinc x) / x` -/
+def dsinc (x : K) : K := (cos (Transc.pi * x) - sinc x) / x
+
+/-! `tss`: with `lnCosTr = log(cos α)/tr`, `den = 1 − t1·lnCosTr`, `e = exp(−ts·r1Star)` the signal is
+`m0Star + (mStart − m0Star)·e`; each partial is the product/chain rule applied to that expression. -/
+def tss_dm0 (_m0 t1 alpha ts tr scal delay : K) : K :=
+  let dmStart := 1 + (scal - 1) * exp (-(delay / t1))
+  let lnCosTr := log (cos alpha) / tr
+  let r1Star := 1 / t1 - lnCosTr
+  let dm0Star := 1 / (1 - t1 * lnCosTr)
+  dm0Star + (dmStart - dm0Star) * exp (-ts * r1Star)
+def tss_dt1 (m0 t1 alpha ts tr scal delay : K) : K :=
+  let mStart0 := m0 * scal
+  let eDelay := exp (-(delay / t1))
+  let mStart := m0 + (mStart0 - m0) * eDelay
+  let dmStart := (mStart0 - m0) * (eDelay * (delay / (t1 * t1)))
+  let lnCosTr := log (cos alpha) / tr
+  let r1Star := 1 / t1 - lnCosTr
+  let den := 1 - t1 * lnCosTr
+  let m0Star := m0 / den
+  let dm0Star := m0 * lnCosTr / (den * den)
+  let e := exp (-ts * r1Star)
+  let de := e * (ts / (t1 * t1))
+  dm0Star + (dmStart - dm0Star) * e + (mStart - m0Star) * de
+def tss_dalpha (m0 t1 alpha ts tr scal delay : K) : K :=
+  let mStart0 := m0 * scal
+  let mStart := m0 + (mStart0 - m0) * exp (-(delay / t1))
+  let lnCosTr := log (cos alpha) / tr
+  /- d/dα log(cos α) = −sin α / cos α -/
+  let dlnCosTr := -(sin alpha / cos alpha) / tr
+  let r1Star := 1 / t1 - lnCosTr
+  let den := 1 - t1 * lnCosTr
+  let m0Star := m0 / den
+  let dm0Star := m0 * (t1 * dlnCosTr) / (den * den)
+  let e := exp (-ts * r1Star)
+  let de := e * (ts * dlnCosTr)
+  dm0Star * (1 - e) + (mStart - m0Star) * de
+
+/-! `wasabi`: `c − d·amp·sinc(x)²` with `amp = (π·b1·γ·tp)²`, `x = tp·root`, `root = √((b1·γ)² + dx²)`. -/
+def wasabi_db0 (b0 rb1 _c d offset tp b1nom gamma : K) : K :=
+  let dx := offset - b0
+  let b1 := b1nom * rb1
+  let amp := sq (Transc.pi * b1 * gamma * tp)
+  let root := sqrt (sq (b1 * gamma) + sq dx)
+  let x := tp * root
+  let dxdb0 := tp * (-(dx / root))
+  d * amp * -(2 * sinc x * (dsinc x * dxdb0))
+def wasabi_drb1 (b0 rb1 _c d offset tp b1nom gamma : K) : K :=
+  let dx := offset - b0
+  let b1 := b1nom * rb1
+  let w := Transc.pi * b1 * gamma * tp
+  let dw := Transc.pi * b1nom * gamma * tp
+  let root := sqrt (sq (b1 * gamma) + sq dx)
+  let x := tp * root
+  let dxdrb1 := tp * (b1 * gamma * (b1nom * gamma) / root)
+  d * -(2 * w * dw * sq (sinc x) + sq w * (2 * sinc x * (dsinc x * dxdrb1)))
+def wasabi_dc (_b0 _rb1 _c _d _offset _tp _b1nom _gamma : K) : K := 1
+def wasabi_dd (b0 rb1 _c _d offset tp b1nom gamma : K) : K :=
+  -(sq (Transc.pi * (b1nom * rb1) * gamma * tp) * sq (sinc (tp * sqrt (sq (b1nom * rb1 * gamma) + sq (offset - b0)))))
+
+/-! `wasabiti`: `mz·(1 − 2·amp·sinc(x)²)` with `mz = 1 − exp(−trec/t1)` and `amp`, `x` as for `wasabi`. -/
+def wasabiti_db0 (b0 rb1 t1 offset trec tp b1nom gamma : K) : K :=
+  let b1 := b1nom * rb1
+  let da := offset - b0
+  let mz := 1 - exp (-trec / t1)
+  let amp := sq (Transc.pi * b1 * gamma * tp)
+  let root := sqrt (sq (b1 * gamma) + sq da)
+  let x := tp * root
+  let dxdb0 := tp * (-(da / root))
+  mz * -(2 * amp * (2 * sinc x * (dsinc x * dxdb0)))
+def wasabiti_drb1 (b0 rb1 t1 offset trec tp b1nom gamma : K) : K :=
+  let b1 := b1nom * rb1
+  let da := offset - b0
+  let mz := 1 - exp (-trec / t1)
+  let w := Transc.pi * b1 * gamma * tp
+  let dw := Transc.pi * b1nom * gamma * tp
+  let root := sqrt (sq (b1 * gamma) + sq da)
+  let x := tp * root
+  let dxdrb1 := tp * (b1 * gamma * (b1nom * gamma) / root)
+  mz * -(2 * (2 * w * dw * sq (sinc x) + sq w * (2 * sinc x * (dsinc x * dxdrb1))))
+def wasabiti_dt1 (b0 rb1 t1 offset trec tp b1nom gamma : K) : K :=
+  let b1 := b1nom * rb1
+  let da := offset - b0
+  let dmz := -(exp (-trec / t1) * (trec / (t1 * t1)))
+  dmz * (1 - 2 * sq (Transc.pi * b1 * gamma * tp) * sq (sinc (tp * sqrt (sq (b1 * gamma) + sq da))))
 
 /-! ### ConstraintsOp -/
 def sigmoidT (β x : K) : K := 1 / (1 + exp (-(β * x)))
